@@ -630,6 +630,30 @@ func c06R6(r *Report) {
 					}
 				}
 				okG := eqGuard(c.Block(), sizes[g], func(x ssa.Value) bool { return isLenOf(x, v) })
+				if !okG {
+					// putPooled(buf): a private helper that is handed the slice; the size test is made by its callers
+					if prm, isP := v.(*ssa.Parameter); isP {
+						if sites, esc := p.callSitesOf(f); len(esc) == 0 && len(sites) > 0 {
+							okG = true
+							for _, cs := range sites {
+								ci, isCall := cs.(*ssa.Call)
+								if !isCall || relPkg(cs.Parent()) != "protocol" {
+									okG = false
+									break
+								}
+								var arg ssa.Value
+								for k, q := range f.Params {
+									if q == prm && k < len(ci.Call.Args) {
+										arg = strip(ci.Call.Args[k])
+									}
+								}
+								if arg == nil || !eqGuard(ci.Block(), sizes[g], func(x ssa.Value) bool { return isLenOf(x, arg) }) {
+									okG = false
+								}
+							}
+						}
+					}
+				}
 				r.Check(okG, "R6", fname(f)+"/pool.Put-exact-size", c.Pos(), "only slices of exactly the pool's size enter the pool",
 					fmt.Sprintf("a slice enters the buffer pool on a path not dominated by len(buf) == %d: the pool's Get hands out whatever it holds for a %d-byte request, so a larger slice makes a later Piece payload swallow the messages that follow it (and a shorter one truncates it)", sizes[g], sizes[g]))
 			case isStdCall(c, "sync", "Pool", "Get"):
@@ -663,6 +687,30 @@ func c06R6(r *Report) {
 					}
 					return false
 				})
+				if !okG && len(f.Params) == 0 {
+					// getPooled(): a private helper without parameters; its callers test the requested length
+					if sites, esc := p.callSitesOf(f); len(esc) == 0 && len(sites) > 0 {
+						okG = true
+						for _, cs := range sites {
+							ci, isCall := cs.(*ssa.Call)
+							if !isCall || relPkg(cs.Parent()) != "protocol" {
+								okG = false
+								break
+							}
+							caller := cs.Parent()
+							if !eqGuard(ci.Block(), sizes[g], func(x ssa.Value) bool {
+								for _, prm := range caller.Params {
+									if x == ssa.Value(prm) {
+										return true
+									}
+								}
+								return false
+							}) {
+								okG = false
+							}
+						}
+					}
+				}
 				r.Check(okG, "R6", fname(f)+"/pool.Get-exact-size", c.Pos(), "a pooled buffer is handed out only for a request of exactly the pool's size",
 					fmt.Sprintf("a pooled buffer is returned on a path not dominated by requested length == %d: the caller gets a buffer of another length than it asked for", sizes[g]))
 			}
@@ -730,6 +778,43 @@ func c06R6(r *Report) {
 						}
 					}
 					return true
+				case *ssa.UnOp:
+					// a captured variable of a deferred closure (defer func() { if !filled { PutBuffer(data) } }()): what the
+					// enclosing function stored into it
+					if x.Op == token.MUL {
+						var cell ssa.Value
+						switch a := x.X.(type) {
+						case *ssa.Alloc:
+							cell = a
+						case *ssa.FreeVar:
+							if par := a.Parent().Parent(); par != nil {
+								allInstrs(par, func(in ssa.Instruction) {
+									if mc, isMC := in.(*ssa.MakeClosure); isMC && mc.Fn == ssa.Value(a.Parent()) {
+										for bi, fvv := range a.Parent().FreeVars {
+											if fvv == a && bi < len(mc.Bindings) {
+												cell = mc.Bindings[bi]
+											}
+										}
+									}
+								})
+							}
+						}
+						if al, isAl := cell.(*ssa.Alloc); isAl {
+							n := 0
+							for _, ref := range *al.Referrers() {
+								if st, isSt := ref.(*ssa.Store); isSt && st.Addr == ssa.Value(al) {
+									if isNilConst(st.Val) {
+										continue
+									}
+									n++
+									if !owned(st.Val, d+1) {
+										return false
+									}
+								}
+							}
+							return n > 0
+						}
+					}
 				case *ssa.Extract:
 					// data, ok := readBlock(peer, r): a helper of the module all of whose returns hand out a GetBuffer result
 					if tc, isC := x.Tuple.(*ssa.Call); isC {
